@@ -16,7 +16,7 @@
 From Coq Require Import NArith List Bool.
 From KdV Require Import Fmt.Codec Fmt.CodecProofs Fmt.Rle Fmt.RleProofs
      Fmt.PfnModel Fmt.BitmapSpec Fmt.ImageSpec Fmt.DiskdumpModel Fmt.DiskdumpSpec Fmt.DiskdumpProofs
-     Fmt.S390Model Fmt.S390Spec Fmt.S390Proofs.
+     Fmt.S390Model Fmt.S390Spec Fmt.S390Proofs Fmt.LkcdModel Fmt.LkcdSpec Fmt.LkcdProofs Fmt.ReadProofs.
 Import ListNotations.
 Local Open Scope N_scope.
 
@@ -127,6 +127,64 @@ Theorem C01_s390_roundtrip : forall l pages,
 Proof. exact s390_roundtrip. Qed.
 Print Assumptions C01_s390_roundtrip.
 
+(** * LKCD *)
+
+(** [_partial]: the reader model keeps the *content* of libkdumpfile's lazily
+    built three-level PFN index (page frame -> offset of its record, for the
+    scanned prefix of the stream; where the scan stopped; whether the END
+    marker was seen) but not its block structure (pfn_block lists,
+    tolerance, splitting at the 32-bit offset limit).  Within that model the
+    statement is complete: every header version 1-10 with both header
+    variants and byte orders, every page size, RLE (any well-formed RLE
+    stream) / gzip / raw records in *any* stream order, and any history of
+    earlier requests ([inv] is the only thing a state has to satisfy, and
+    every operation preserves it). *)
+Theorem C01_lkcd_open_partial : forall gunzip l stream img,
+  lk_wf l stream -> Forall2 (rec_stores gunzip (ll_compression l) (ll_page_size l)) stream img ->
+  exists st, lk_open (read_files [encode_lkcd l stream]) 1 = Ok st /\
+    LkcdProofs.inv l stream st /\ lk_be st = ll_be l /\ lk_page_size st = ll_page_size l.
+Proof. exact lkcd_open. Qed.
+Print Assumptions C01_lkcd_open_partial.
+
+Theorem C01_lkcd_roundtrip_partial : forall gunzip l stream img,
+  lk_wf l stream -> Forall2 (rec_stores gunzip (ll_compression l) (ll_page_size l)) stream img ->
+  forall fuel st pfn, LkcdProofs.inv l stream st -> (length stream + 1 < fuel)%nat ->
+    fst (lk_read_page (read_files [encode_lkcd l stream]) gunzip fuel st pfn) = spec_lkcd_page img pfn /\
+    LkcdProofs.inv l stream (snd (lk_read_page (read_files [encode_lkcd l stream]) gunzip fuel st pfn)).
+Proof. exact lkcd_read_page. Qed.
+Print Assumptions C01_lkcd_roundtrip_partial.
+
+Theorem C01_lkcd_max_pfn_partial : forall gunzip l stream img,
+  lk_wf l stream -> Forall2 (rec_stores gunzip (ll_compression l) (ll_page_size l)) stream img ->
+  forall fuel st, LkcdProofs.inv l stream st -> (length stream + 1 < fuel)%nat ->
+    fst (lk_scan_max_pfn (read_files [encode_lkcd l stream]) fuel st) = Ok (spec_lkcd_max_pfn img) /\
+    LkcdProofs.inv l stream (snd (lk_scan_max_pfn (read_files [encode_lkcd l stream]) fuel st)).
+Proof. exact lkcd_max_pfn. Qed.
+Print Assumptions C01_lkcd_max_pfn_partial.
+
+(** * arbitrary address ranges *)
+
+(** The page loop of [read_locked] over any page source that answers aligned
+    requests with [page (addr / pgsz)] (for a state invariant [Inv] that the
+    source preserves): an unaligned, page-crossing read of [n] bytes at
+    [addr] returns exactly the bytes of the pages it touches ([bytes_from]),
+    all [n] of them with status OK, or - if some page is not available - the
+    bytes before that page and that page's status. *)
+Theorem C01_read_range : forall (St : Type) (get_page : St -> N -> res bytes * St)
+    (Inv : St -> Prop) (page : N -> res bytes) (pgsz : N),
+  0 < pgsz ->
+  (forall st a, Inv st -> a mod pgsz = 0 ->
+     fst (get_page st a) = page (a / pgsz) /\ Inv (snd (get_page st a))) ->
+  (forall k c, page k = Ok c -> len c = pgsz) ->
+  forall st addr n, Inv st -> addr + n <= 2^64 ->
+  let '(status, data, st') := read_range get_page pgsz st addr n in
+  Inv st' /\
+  exists m, N.of_nat m <= n /\ data = bytes_from page pgsz addr m /\
+    ((status = KDUMP_OK /\ N.of_nat m = n) \/
+     (N.of_nat m < n /\ page ((addr + N.of_nat m) / pgsz) = Err status)).
+Proof. exact (@read_range_spec). Qed.
+Print Assumptions C01_read_range.
+
 (** * the hypotheses are satisfiable *)
 
 Definition ex_layout : dd_layout :=
@@ -203,13 +261,57 @@ Example C01_nonvacuous_s390 :
   s3_wf {| s3l_page_size := 4096; s3l_arch64 := true; s3l_hdr_size := 4096; s3l_tod := 5;
            s3l_end_tod := 6; s3l_version := 5; s3l_cpu_id := 1 |} [ex_page 1; ex_page 2].
 Proof.
-  constructor; cbn.
+  constructor; cbn [s3l_page_size s3l_hdr_size s3l_tod s3l_end_tod s3l_version s3l_cpu_id length N.of_nat Pos.of_succ_nat Pos.succ].
   - exists 12. split; [split; discriminate | reflexivity].
   - split; [discriminate | reflexivity].
-  - repeat constructor; unfold ex_page; rewrite len_app, len_repeat; reflexivity.
+  - assert (H : forall b, len (ex_page b) = 4096) by (intro b; unfold ex_page; rewrite len_app, len_repeat; reflexivity).
+    constructor; [apply H | constructor; [apply H | constructor]].
   - reflexivity.
   - split; [discriminate | reflexivity].
   - split; reflexivity.
+Qed.
+
+Definition ex_s65 (s : bytes) : bytes := s ++ repeat 0 (65 - length s).
+Definition ex_uts : bytes :=
+  ex_s65 [76; 105; 110; 117; 120] ++ ex_s65 [110] ++ ex_s65 [50; 46; 54] ++ ex_s65 [35; 49]
+  ++ ex_s65 [105; 54; 56; 54] ++ ex_s65 [].
+Definition ex_lk_layout : lk_layout :=
+  {| ll_be := true; ll_version := 9; ll_mclx := 2^31; ll_hdr64 := true; ll_page_size := 4096;
+     ll_compression := 1; ll_uts := ex_uts; ll_data_offset := 1000; ll_memsize := 2^30 |}.
+Definition ex_toks : list rle_tok := repeat (Run 255 7) 16 ++ [Run 16 7].
+Definition ex_stream : list lk_page :=
+  [ {| lp_pfn := 5; lp_flags := 1; lp_payload := ex_page 3 |};
+    {| lp_pfn := 2; lp_flags := 2; lp_payload := rle_render ex_toks |} ].
+Definition ex_lk_img : list (N * bytes) := [ (5, ex_page 3); (2, rle_expand ex_toks) ].
+
+Example C01_nonvacuous_lkcd :
+  lk_wf ex_lk_layout ex_stream /\
+  Forall2 (rec_stores (fun _ => None) (ll_compression ex_lk_layout) (ll_page_size ex_lk_layout))
+          ex_stream ex_lk_img.
+Proof.
+  split.
+  - constructor.
+    + exists 12. split; [split; discriminate | reflexivity].
+    + cbn. tauto.
+    + cbn. tauto.
+    + cbn. split; [discriminate | reflexivity].
+    + cbn. now left.
+    + vm_compute. reflexivity.
+    + cbn. repeat constructor; cbn; intuition discriminate.
+    + repeat constructor.
+    + vm_compute. reflexivity.
+    + reflexivity.
+  - constructor; [| constructor; [| constructor]].
+    + split; [reflexivity |]. split; [unfold ex_page; cbn [snd]; rewrite len_app, len_repeat; reflexivity |].
+      split; [unfold ex_page; cbn [lp_payload]; rewrite len_app, len_repeat; reflexivity |].
+      left. split; reflexivity.
+    + split; [reflexivity |]. split; [vm_compute; reflexivity |].
+      split; [vm_compute; reflexivity |]. right. split; [reflexivity |].
+      split; [vm_compute; discriminate |]. left. split; [reflexivity |].
+      exists ex_toks. split; [| split; reflexivity].
+      unfold ex_toks. apply Forall_app. split.
+      * apply Forall_forall. intros t Ht. apply repeat_spec in Ht. subst. cbn. intuition (discriminate || reflexivity).
+      * repeat constructor; cbn; intuition (discriminate || reflexivity).
 Qed.
 
 Example C01_nonvacuous_rle :
